@@ -72,6 +72,24 @@ CLAIMED = {
         "note": "Read-back equality is not decided (composition with C12/C13); 0..3 rows per run.",
         "design_ref": "DESIGN.md section 4, C14",
     },
+    "C15": {
+        "technique": "abstract interpretation of rowio.ods_rows on abstract OpenDocument element trees (equality-atom texts, ElementTree API model) covering every ODF construct of the statement, column/row runs, repeat-count faults and sheet selection",
+        "text": "For each ODF text construct x column run the cell text read equals the logical text fragment by fragment; broken repeat counts and missing sheets are DataFormatErrors; the requested sheet is read.",
+        "note": "ElementTree's own decoding trusted; container faults via C06/C10 escape analysis; known finding F17a (number-rows-repeated ignored).",
+        "design_ref": "DESIGN.md section 4, C15",
+    },
+    "C16": {
+        "technique": "abstract interpretation of rowio.excel_rows on a stubbed multi-sheet workbook, decision table of _excel_cell_value over cell kinds, event trace of XlsxRowWriter",
+        "text": "Sheet 'sheet - 1' is read row-major at full width, a missing sheet is a DataFormatError; cell kinds render as documented (dates via datetime, time-only iff date part zero, '.0' stripped for number cells only, booleans 1/0, error texts); the xlsx writer writes strings at (line, cell).",
+        "note": "xlrd's cell typing / date conversion, str(float) and xlsxwriter output are trusted.",
+        "design_ref": "DESIGN.md section 4, C16",
+    },
+    "C17": {
+        "technique": "dispatch tables of rowio.auto_rows, Reader._raw_rows and Writer.__init__ by abstract interpretation; construction of every built-in field type under DataFormat objects built by the repository's constructor for each format (attribute availability)",
+        "text": "Suffix and format dispatch reach the matching reader/writer with the data format's own settings for every valid format; every field type constructs under every format (no format-specific attribute read unguarded).",
+        "note": "Necessary conditions only: equality of verdicts across storage formats is not decided (depends on C12-C16).",
+        "design_ref": "DESIGN.md section 4, C17",
+    },
     "C18": {
         "technique": "decision tables of applications.main / process / CutplaceApp.validate / set_options by abstract interpretation over outcome classes of process(), per-file Reader outcomes and --until regions",
         "text": "Exit-code mapping for every outcome class; every list of 0..3 files over {accepted, rejected row, rejected at end, unreadable}: files attempted in order with a fresh Reader on the shared CID, 1 iff some file rejected, unreadable -> EnvironmentError (3); --until regions mapped to the API limit.",
